@@ -335,4 +335,31 @@ def run(ctx):
     from .c15 import section_order_rule
 
     section_order_rule(ctx, "C16-R8", reference=3)
+    # ---------------------------------------------------------------- R11
+    r = ctx.rule("C16-R11", "SENTINEL", "a placeholder whose message is set is replaced by the message, whatever the message is: whether a message exists is decided by membership in "
+                 "the message map, not by `.get()` / the truthiness of the message (the empty message is a message)", reference=2)
+    n11 = 0
+    for cls in (pb, ctx.cls("clikit.ui.components.progress_indicator.ProgressIndicator")):
+        for name, m in sorted(cls.methods.items()):
+            maps = {a.attr for a in walk_no_nested(m.node) if is_self_attr(a) and "message" in a.attr and a.attr.endswith("s")}
+            if not maps or not any(isinstance(x, ast.Attribute) and x.attr == "group" for x in walk_no_nested(m.node)):
+                continue
+            cfg = ctx.cfg(m)
+            gets = [c for c in q.calls(m) if isinstance(c.func, ast.Attribute) and c.func.attr == "get" and is_self_attr(c.func.value) and c.func.value.attr in maps]
+            looked = {t.id for n in walk_no_nested(m.node) if isinstance(n, ast.Assign) and any((isinstance(x, ast.Subscript) and is_self_attr(x.value) and x.value.attr in maps) or x in gets for x in ast.walk(n.value))
+                      for t in n.targets if isinstance(t, ast.Name)}
+            truthy = [c for c in cfg.conds() if (isinstance(c.ast, ast.Name) and c.ast.id in looked) or (isinstance(c.ast, ast.UnaryOp) and isinstance(c.ast.op, ast.Not) and isinstance(c.ast.operand, ast.Name) and c.ast.operand.id in looked)]
+            member = [c for c in cfg.conds() if isinstance(c.ast, ast.Compare) and len(c.ast.ops) == 1 and isinstance(c.ast.ops[0], (ast.In, ast.NotIn)) and is_self_attr(c.ast.comparators[0]) and c.ast.comparators[0].attr in maps]
+            n11 += 1
+            if gets or (truthy and not member):
+                bad = gets[0] if gets else truthy[0].ast
+                r.fail(m, bad, "message looked up with %s" % ("get()" if gets else "a truthiness test"), "%s decides whether a message is set by %s: after set_message('') the frame shows the raw "
+                       "placeholder (%%message%%) instead of an empty message" % (m.short, "`.get()` and the truthiness of the result" if gets else "the truthiness of the message"))
+            elif member:
+                r.ok("%s: membership in self.%s decides" % (m.short, "/".join(sorted(maps))))
+            else:
+                r.note("%s: no presence test on the message map" % m.short)
+    if n11 == 0:
+        r.vacuous_ok = True
+
     return ctx.results
